@@ -183,7 +183,7 @@ class Gen:
             decls.append(self.vdecl(kind, "l%s%d_%d" % (kind[0], t, i)))
         if r.random() < 0.5:
             r.shuffle(decls)
-        scheme = r.choice([0, 0, 1, 3, 4, 5] if self.xta_safe else [0, 0, 1, 2, 3, 4, 5])
+        scheme = r.choice([0, 0, 1, 3, 4] if self.xta_safe else [0, 0, 1, 2, 3, 4, 5])
         nl = r.randint(1, max(1, int(6 * self.size)))
         locs = []
         for i in range(nl):
@@ -522,8 +522,10 @@ class XmlText:
         return "".join(o)
 
 
-def render_xta(M):
-    """AModel -> XTA text (common subset: identifiers as location names, labels in grammar order)."""
+def render_xta(M, prefs=()):
+    """AModel -> XTA text (common subset: identifiers as location names, labels in grammar order).  prefs[i] asks for the
+    chained form `, -> T {..}` for the i-th edge of a template; it is used where the grammar allows it (same source as
+    the last full transition, no probability section) -- the same rule as renderTrans in lean/UtapModel/Model/Xta.lean."""
     o = []
     for d in M["gdecls"]:
         o.append(d["text"])
@@ -554,11 +556,12 @@ def render_xta(M):
             o.append("  urgent " + ", ".join(urg) + ";")
         o.append("  init %s;" % node_name(t, t["init"]))
         tr = []
-        for e in t["edges"]:
+        root = None
+        for i, e in enumerate(t["edges"]):
             body = []
             for kind, pl in e["labels"]:
                 if kind == "select":
-                    body.append("select " + ", ".join("%s : %s" % (i, ttext(ty)) for i, ty in pl) + ";")
+                    body.append("select " + ", ".join("%s : %s" % (b, ttext(ty)) for b, ty in pl) + ";")
                 elif kind == "guard":
                     body.append("guard " + etext(pl) + ";")
                 elif kind == "synchronisation":
@@ -568,7 +571,13 @@ def render_xta(M):
                 elif kind == "probability":
                     body.append("probability " + etext(pl) + ";")
             arrow = "-u->" if e["ctrl"] is False else "->"
-            tr.append("%s %s %s { %s }" % (node_name(t, e["src"]), arrow, node_name(t, e["tgt"]), " ".join(body)))
+            src, tgt = node_name(t, e["src"]), node_name(t, e["tgt"])
+            want = i < len(prefs) and prefs[i]
+            if want and root == src and not any(k == "probability" for k, _ in e["labels"]):
+                tr.append("%s %s { %s }" % (arrow, tgt, " ".join(body)))
+            else:
+                tr.append("%s %s %s { %s }" % (src, arrow, tgt, " ".join(body)))
+                root = src
         if tr:
             o.append("  trans\n    " + ",\n    ".join(tr) + ";")
         o.append("}")
@@ -649,7 +658,7 @@ class Normalizer:
                     continue
                 trace.append(self.subst(l, rep))
                 continue
-            if l.startswith(("ERROR ", "WARNING ", "VERDICT ", "hasPriorities ", "EXCEPTION", "TRACE-EXCEPTION", "TRACED-", "END-TRACED", "<<UNTERMINATED")):
+            if l.startswith(("ERROR ", "WARNING ", "VERDICT ", "hasPriorities ", "ACTNAMES", "EXCEPTION", "TRACE-EXCEPTION", "TRACED-", "END-TRACED", "<<UNTERMINATED")):
                 rest.append(l)
                 continue
             if rest and rest[-1].startswith("TRACED-DOCUMENT-DIFFERS") and not l.startswith("END-TRACED"):
